@@ -101,6 +101,8 @@ class Eval:
         # inside a closure that the parent maps over the elements of the captured pointer:
         # `f.node_iter().map(|a| .. a.sub() ..)` — the closure's item parameter is such an element
         if self.fn.kind == "Closure" and self.base[0] == "upvar" and mir.strip_refs(t) == ("param", 2):
+            if getattr(self, "_item_elem", None) is True:
+                return True
             return self._item_is_elem_of_base()
         return False
 
@@ -124,6 +126,47 @@ class Eval:
                 if mir.is_call(src, "node_iter") and mir.strip_refs(strip(src[2][0])) == captured:
                     self._item_elem = True
         return self._item_elem
+
+    def _built_element(self, t, which, nu):
+        """`v[i]` / `v.first()` with v = node_iter(base).map(|a| SddAnd::new(P(a), S(a))).collect(): the component of the
+        element the closure builds, evaluated with the closure's item as an element of the base"""
+        if self.depth >= 2:
+            return None
+        t = mir.strip_refs(strip(t))
+        while isinstance(t, tuple) and t and (t[0] in ("deref", "ref") or (t[0] == "call" and t[1].name in ("unwrap", "expect", "deref", "clone") and t[2])):
+            t = mir.strip_refs(strip(t[1] if t[0] != "call" else t[2][0]))
+        if not (isinstance(t, tuple) and t and t[0] == "call" and t[1].name in ("index", "first", "last", "get") and t[2]):
+            return None
+        coll = mir.strip_refs(strip(t[2][0]))
+        while mir.is_call(coll) and coll[1].name in ("deref", "as_slice", "iter") and coll[2]:
+            coll = mir.strip_refs(strip(coll[2][0]))
+        if not (mir.is_call(coll, "collect") and coll[2]):
+            return None
+        m = strip(coll[2][0])
+        if not (mir.is_call(m, "map") and len(m[2]) == 2):
+            return None
+        src = strip(m[2][0])
+        while mir.is_call(src) and src[1].name in ("iter", "into_iter") and src[2]:
+            src = strip(src[2][0])
+        if not (mir.is_call(src, "node_iter") and mir.strip_refs(strip(src[2][0])) == self.base):
+            return None
+        clo = strip(m[2][1])
+        if not (isinstance(clo, tuple) and clo and clo[0] == "agg" and clo[1] == "closure"):
+            return None
+        kids = [g for g in self.prog.lib_fns if g.npath == clo[2]]
+        if len(kids) != 1 or kids[0].terms.ret is None:
+            return None
+        r = strip(kids[0].terms.ret)
+        if not (mir.is_call(r, "new") and "SddAnd" in r[1].key() and len(r[2]) == 2):
+            return None
+        comp = r[2][0] if which == "prime" else r[2][1]
+        names = clo[5] or ()
+        capt = [n for n, v in zip(names, clo[4]) if mir.strip_refs(strip(v)) == self.base]
+        ev2 = Eval(self.prog, kids[0], ("upvar", capt[0] if capt else "\x00none"))
+        ev2._item_elem = True
+        ev2.depth = self.depth + 1
+        res = ev2.av(comp, nu)
+        return None if UNK in res else res
 
     def nu_consistent(self, bb, nu):
         """are the dominating facts at block bb consistent with ν(base) = nu?"""
@@ -278,6 +321,9 @@ class Eval:
                 if self.elem_of_base(a[0]):
                     e = ("elem", mir.stable(strip(a[0]), self.fn)[:60])
                     return {(("child", nm, e), nu if nm == "sub" else 0)}
+                built = self._built_element(a[0], nm, nu)
+                if built is not None:
+                    return built
                 return {(("opq", nm), 0)}
             if nm in COMMUTE:
                 # the pointer operand: first pointer-like argument after self
@@ -424,9 +470,61 @@ def run(prog):
             out += closure_elements(prog, fn, ev, bname or show(base))
     if n_sinks < 40:
         raise CheckerError("CP: only %d sink instances recognised (expected >= 40)" % n_sinks)
+    out += sdd_condition_returns(prog)
     out += ite_adapters(prog)
     out += hash_sign(prog)
     out += serializer_flags(prog)
+    return out
+
+
+def sdd_condition_returns(prog):
+    """Every value the SDD `condition` returns on a path that is open to both polarities of the pointer denotes the same
+    thing relative to what the pointer denotes: a value derived from a *stored* sub (conditioned or not) is the complement
+    of the right answer when the pointer is complemented, unless the complement is applied on that path."""
+    out = []
+    fns = [f for f in prog.find(name="condition", impl_trait="builder::BottomUpBuilder", unit="rsdd-lib") if "SddPtr" in f.npath]
+    if len(fns) != 1 or fns[0].terms.ret is None:
+        return out
+    fn = fns[0]
+    te = fn.terms
+    base = ("param", 2)
+    ev = Eval(prog, fn, base)
+    alts = []
+
+    def collect(t, conds):
+        t0 = strip(t)
+        if isinstance(t0, tuple) and t0 and t0[0] == "phi":
+            for _, v in t0[2]:
+                collect(v, conds)
+        elif isinstance(t0, tuple) and t0 and t0[0] == "gamma":
+            for lab, v in t0[2]:
+                collect(v, conds + [(strip(t0[1]), lab)])
+        else:
+            alts.append((t0, conds))
+    collect(te.ret, [])
+    errs, n = [], 0
+    for t0, conds in alts:
+        allowed = {0, 1}
+        for c, lab in conds:
+            if mir.is_call(c, "is_neg") and c[2] and strip(c[2][0]) == base:
+                truth = None if lab not in ("0", "1", ("not", ("0",)), ("not", ("1",))) else (lab in ("1", ("not", ("0",))))
+                if truth is not None:
+                    allowed &= {1 if truth else 0}
+            if c[0] == "discr" and strip(c[1]) == base:
+                allowed = set()          # variant-specific alternatives are SH2's / the per-variant rules'
+        if allowed != {0, 1}:
+            continue
+        ev.cp2 = []
+        s0, s1 = ev.av(t0, 0), ev.av(t0, 1)
+        if UNK in s0 or UNK in s1 or not (relevant(s0) or relevant(s1)):
+            continue
+        n += 1
+        if s0 != s1:
+            errs.append("a path returns %s, which denotes %s for a regular pointer and %s for a complemented one: the stored "
+                        "side of a complemented node is returned without the complement" % (show(t0)[:60], fmt(s0), fmt(s1)))
+    if n:
+        out.append(inst("CP", "%s:sdd:returns" % fn.npath, VIOLATION if errs else OK, fn, None,
+                        "; ".join(dict.fromkeys(errs)) if errs else "%d returned values denote the same thing for both polarities" % n))
     return out
 
 
